@@ -7,6 +7,19 @@ package main
 // frame then reads the object again and returns what it saw. The graphs have a host module (number 0) and 3-5
 // wasm modules; the instantiation order forces calls to later instances through the shared table or the host.
 //
+// Index spaces: the instances of one graph bind the shared object at DIFFERENT positions of their index spaces, and the
+// instance the host enters is often not the one whose code touches the object. Table graphs give every instance a table
+// index space of its own (the shared table at index 0, 1 or 2, next to private "decoy" tables that are defined there or
+// imported from an earlier instance, in either order; some instances do not see the shared table at all and have a
+// private table at the index where the others have the shared one); a "blind" last instance never sees the object and
+// has a private memory / table / global where the others have the shared one; a probe is often entered through an
+// "enter" function of another instance (frequently the blind one) that merely calls the probe, so that the instance the
+// host invoked differs from the instance whose frame is live, which differs from the instance that writes / grows.
+// Every table instruction names its table explicitly: call_indirect, table.set, table.size, table.grow, table.fill,
+// table.copy (from a decoy table), table.init (from a passive segment), ref.func (function index space of the executing
+// instance). Around every probe the sizes of EVERY table and memory of EVERY instance are recorded (Obs.Pre / Obs.Post):
+// growing the wrong object shows twice, the shared object did not grow and somebody's private object did.
+//
 // Modelled in W (coq/Rt/LinkLive.v): globals and memory (growth included); a host function is "re-enter function
 // F of instance M with my arguments", which is also how the host's own writes are modelled (the exported
 // setter/store/grow function of an instance that sees the object). Table slots (table.set / table.grow are not
@@ -57,6 +70,14 @@ type LiveProbe struct {
 	SizeIdx []int    `json:"sizeidx,omitempty"` // result indices of the size before / after
 	Max     int64    `json:"max"`               // declared maximum of the object (-1 none)
 	Grows   int      `json:"grows"`             // growth attempts (by one) during the call
+	// index-space variety
+	Entry    int    `json:"entry"`              // the instance the host enters (its "enter" function calls the probe); -1: the probe is called directly
+	EntryVia string `json:"entryvia,omitempty"` // D | I | H: how the enter function reaches the probe
+	Obj      [2]int `json:"obj"`                // the shared object by design identity: table (owner, index there), memory (owner, -1)
+	WMode    string `json:"wmode,omitempty"`    // table graphs: how the writer writes the slot: set | fill | init | copy
+	Ctx      string `json:"ctx"`                // the instance whose call engine runs the writer's code vs the writer's instance: host-entered | same-instance |
+	//                                             same-index-same-object | other-object-at-index | nothing-at-index (what a handler resolving the index in the wrong instance would hit)
+	TIdx []int `json:"tidx,omitempty"` // table graphs: per instance along Mods, the index of the shared table there (-1: not visible)
 }
 
 // lfn: a function of the live family (to be) defined in module mod
@@ -74,7 +95,9 @@ type lfn struct {
 type probeSpec struct {
 	meta  LiveProbe
 	fn    *lfn
+	ent   *lfn // the enter function, if any
 	chain c.Sig
+	wmode string
 }
 
 type liveGraph struct {
@@ -97,9 +120,25 @@ type liveGraph struct {
 	hostObjIdx map[*lfn][]int        // caller -> imported host object functions (grow, access)
 	leafAB     [][2]int              // per module: its two leaves (module index space)
 	model      bool
+	blind      int // the last module never sees the object (0: no such module)
 }
 
-func (lg *liveGraph) seesTab(m int) bool { return m >= lg.tabOwner }
+// seesTab: the shared table is in m's table index space (in table graphs the blind module has none)
+func (lg *liveGraph) seesTab(m int) bool {
+	return m >= lg.tabOwner && !(lg.kind == "tab" && m == lg.blind)
+}
+
+// tabOp: a table instruction of the 0xfc group with explicit table indices
+func tabOp(sub byte, idx ...int) c.Ins {
+	b := c.B(0xfc, sub)
+	for _, i := range idx {
+		b = c.Cat(b, c.U32(uint32(i)))
+	}
+	return c.Ins{Bin: b, Coq: "Unreachable (* not in W *)"}
+}
+func refFunc(f int) c.Ins {
+	return c.Ins{Bin: c.Cat(c.B(0xd2), c.U32(uint32(f))), Coq: "Unreachable (* ref.func *)"}
+}
 
 func rawIns(b ...byte) c.Ins { return c.Ins{Bin: b, Coq: "Unreachable (* not in W *)"} }
 
@@ -131,6 +170,17 @@ func (lg *liveGraph) link(from, to *lfn, prefer byte) {
 			via = o
 		}
 	}
+	if prefer == 'X' { // anything but the host, if possible: the call engine of the entered instance stays in charge
+		var in []byte
+		for _, o := range opts {
+			if o != 'H' {
+				in = append(in, o)
+			}
+		}
+		if len(in) > 0 {
+			via = in[lg.r.Intn(len(in))]
+		}
+	}
 	if via == 'I' && to.slot < 0 {
 		to.slot = lg.nslot
 		lg.nslot++
@@ -141,6 +191,7 @@ func (lg *liveGraph) link(from, to *lfn, prefer byte) {
 type liveWant struct {
 	reader, writer, first, dir, touch string
 	hops, loop                        int
+	entry                             string // none | blind | other
 }
 
 func (lg *liveGraph) seers() []int {
@@ -170,7 +221,11 @@ func (lg *liveGraph) planProbe(w liveWant) {
 		w.writer = "inst" // the public API has no table access
 	}
 	ps := &probeSpec{}
-	ps.meta = LiveProbe{Kind: lg.kind, Dir: w.dir, Reader: w.reader, Writer: w.writer, Hops: w.hops, Touch: w.touch, Loop: w.loop, Grow: lg.grow && w.dir == "cw", Model: lg.model, Max: -1}
+	ps.meta = LiveProbe{Kind: lg.kind, Dir: w.dir, Reader: w.reader, Writer: w.writer, Hops: w.hops, Touch: w.touch, Loop: w.loop, Grow: lg.grow && w.dir == "cw", Model: lg.model, Max: -1, Entry: -1}
+	if lg.kind == "tab" {
+		ps.wmode = []string{"set", "set", "fill", "init", "copy"}[r.Intn(5)]
+		ps.meta.WMode = ps.wmode
+	}
 	chainVT := lg.vt
 	if w.dir == "cw" {
 		ps.chain = c.Sig{P: []byte{chainVT}}
@@ -191,6 +246,36 @@ func (lg *liveGraph) planProbe(w liveWant) {
 	}
 	ps.fn = lg.newFn(R, "probe", psig)
 	ps.fn.ps = ps
+	// the host enters another instance, whose function calls the probe
+	if w.entry == "blind" && (lg.blind == 0 || lg.blind == R) {
+		w.entry = "other"
+	}
+	if w.entry == "blind" || w.entry == "other" {
+		E := lg.blind
+		if w.entry == "other" {
+			var later, any []int
+			for m := 1; m <= lg.nmods; m++ {
+				if m != R {
+					any = append(any, m)
+					if m > R {
+						later = append(later, m)
+					}
+				}
+			}
+			if len(later) > 0 && r.Intn(4) != 0 { // a later instance can import the probe
+				any = later
+			}
+			E = any[r.Intn(len(any))]
+		}
+		ps.ent = lg.newFn(E, "enter", psig)
+		ps.ent.ps = ps
+		prefer := byte('X')
+		if r.Intn(6) == 0 {
+			prefer = 'H'
+		}
+		lg.link(ps.ent, ps.fn, prefer)
+		ps.meta.Entry, ps.meta.EntryVia = E, string(ps.ent.via)
+	}
 	// the function at the end of the chain
 	var last *lfn
 	endRole := "lset"
@@ -223,10 +308,13 @@ func (lg *liveGraph) planProbe(w liveWant) {
 			to.ps = ps
 		}
 		prefer := byte(0)
+		if r.Bool() { // often without the host in between: the call engine of the instance entered first stays in charge
+			prefer = 'X'
+		}
 		if cur == ps.fn {
 			if w.first == "call_indirect" {
 				prefer = 'I'
-			} else if r.Bool() {
+			} else if r.Intn(3) != 0 {
 				prefer = 'D'
 			} else {
 				prefer = 'H'
@@ -256,8 +344,20 @@ func (lg *liveGraph) ext(is ...c.Ins) []c.Ins { // an i32 on the stack becomes a
 	return is
 }
 
-// write: the running function's module m writes the object; val pushes the value
-func (lg *liveGraph) write(m *LMod, val []c.Ins) []c.Ins {
+// otherTab: a table of m other than the shared one (-1: none)
+func otherTab(m *LMod) int {
+	for i := range m.Tabs {
+		if i != m.TIdx {
+			return i
+		}
+	}
+	return -1
+}
+
+// write: the running function's module m writes the object; val pushes the value. Table graphs: slot S of the shared
+// table (index m.TIdx HERE) receives a reference to one of m's two leaves, by table.set, table.fill, table.init from
+// m's passive segment, or table.set on slot 0 of another table of m followed by table.copy
+func (lg *liveGraph) write(m *LMod, val []c.Ins, mode string) []c.Ins {
 	switch lg.kind {
 	case "g32", "g64":
 		return append(append([]c.Ins{}, val...), c.IGlobalSet(lg.objIdx[m.N]))
@@ -265,8 +365,24 @@ func (lg *liveGraph) write(m *LMod, val []c.Ins) []c.Ins {
 		return append(append([]c.Ins{c.IConst(c.I32, liveAddr)}, val...), c.IStore(c.I64, 8, 0))
 	}
 	ab := lg.leafAB[m.N]
+	t := m.TIdx
+	d := otherTab(m)
+	if mode == "copy" && d < 0 {
+		mode = "set"
+	}
+	if mode == "init" { // (table.init t seg0 (S) (val & 1) (1)): the passive segment holds the two leaves in order
+		o := append([]c.Ins{c.IConst(c.I32, liveSlotS)}, val...)
+		return append(o, c.IConst(c.I32, 1), c.IBin(c.I32, 7), c.IConst(c.I32, 1), tabOp(12, 0, t))
+	}
 	set := func(f int) []c.Ins {
-		return []c.Ins{c.IConst(c.I32, liveSlotS), {Bin: c.Cat(c.B(0xd2), c.U32(uint32(f))), Coq: "Unreachable (* ref.func *)"}, rawIns(0x26, 0)}
+		switch mode {
+		case "fill":
+			return []c.Ins{c.IConst(c.I32, liveSlotS), refFunc(f), c.IConst(c.I32, 1), tabOp(17, t)}
+		case "copy":
+			return []c.Ins{c.IConst(c.I32, 0), refFunc(f), rawIns(0x26, byte(d)),
+				c.IConst(c.I32, liveSlotS), c.IConst(c.I32, 0), c.IConst(c.I32, 1), tabOp(14, t, d)}
+		}
+		return []c.Ins{c.IConst(c.I32, liveSlotS), refFunc(f), rawIns(0x26, byte(t))}
 	}
 	o := append(append([]c.Ins{}, val...), c.IConst(c.I32, 1), c.IBin(c.I32, 7))
 	return append(o, m.View.IIf(nil, nil, set(ab[1]), set(ab[0])))
@@ -279,14 +395,14 @@ func (lg *liveGraph) read(m *LMod) []c.Ins {
 	case "mem":
 		return []c.Ins{c.IConst(c.I32, liveAddr), c.ILoad(c.I64, 8, false, 0)}
 	}
-	return []c.Ins{c.IConst(c.I32, liveX), c.IConst(c.I32, liveSlotS), c.ICallIndirect(m.View.TypeIdx(c.Sig{P: []byte{c.I32}, R: []byte{c.I32}}))}
+	return []c.Ins{c.IConst(c.I32, liveX), c.IConst(c.I32, liveSlotS), callInd(m.View.TypeIdx(c.Sig{P: []byte{c.I32}, R: []byte{c.I32}}), m.TIdx)}
 }
 
-func (lg *liveGraph) size() []c.Ins {
+func (lg *liveGraph) size(m *LMod) []c.Ins {
 	if lg.kind == "mem" {
 		return []c.Ins{c.IMemSize}
 	}
-	return []c.Ins{rawIns(0xfc, 16, 0)}
+	return []c.Ins{tabOp(16, m.TIdx)}
 }
 
 // address of the last 8 bytes of the memory
@@ -298,7 +414,7 @@ func (lg *liveGraph) lastRead(m *LMod) []c.Ins {
 	if lg.kind == "mem" {
 		return append(lastCell(), c.ILoad(c.I64, 8, false, 0))
 	}
-	return []c.Ins{c.IConst(c.I32, liveX), rawIns(0xfc, 16, 0), c.IConst(c.I32, 1), c.IBin(c.I32, 1), c.ICallIndirect(m.View.TypeIdx(c.Sig{P: []byte{c.I32}, R: []byte{c.I32}}))}
+	return []c.Ins{c.IConst(c.I32, liveX), tabOp(16, m.TIdx), c.IConst(c.I32, 1), c.IBin(c.I32, 1), callInd(m.View.TypeIdx(c.Sig{P: []byte{c.I32}, R: []byte{c.I32}}), m.TIdx)}
 }
 
 // growBy1 grows the object by one (result dropped)
@@ -307,7 +423,7 @@ func (lg *liveGraph) growBy1(m *LMod) []c.Ins {
 		return []c.Ins{c.IConst(c.I32, 1), c.IMemGrow, c.IDrop}
 	}
 	ab := lg.leafAB[m.N]
-	return []c.Ins{{Bin: c.Cat(c.B(0xd2), c.U32(uint32(ab[0]))), Coq: "Unreachable (* ref.func *)"}, c.IConst(c.I32, 1), rawIns(0xfc, 15, 0), c.IDrop}
+	return []c.Ins{refFunc(ab[0]), c.IConst(c.I32, 1), tabOp(15, m.TIdx), c.IDrop}
 }
 
 // call emits the hop from f (running in m) to f.next; args pushes the chain's parameters
@@ -316,7 +432,7 @@ func (lg *liveGraph) call(m *LMod, f *lfn, args []c.Ins) []c.Ins {
 	case 'D', 'H':
 		return append(append([]c.Ins{}, args...), c.ICall(lg.impIdx[f][f.next]))
 	case 'I':
-		return append(append([]c.Ins{}, args...), c.IConst(c.I32, uint64(f.next.slot)), c.ICallIndirect(m.View.TypeIdx(f.next.sig)))
+		return append(append([]c.Ins{}, args...), c.IConst(c.I32, uint64(f.next.slot)), callInd(m.View.TypeIdx(f.next.sig), m.TIdx))
 	}
 	// W: the host accesses the object itself
 	hs := lg.hostObjIdx[f]
@@ -338,8 +454,12 @@ func (lg *liveGraph) call(m *LMod, f *lfn, args []c.Ins) []c.Ins {
 
 func (lg *liveGraph) body(m *LMod, f *lfn) (locals []byte, body []c.Ins) {
 	ps := f.ps
+	wm := ""
+	if ps != nil {
+		wm = ps.wmode
+	}
 	switch f.role {
-	case "relay":
+	case "relay", "enter":
 		var args []c.Ins
 		for i := range f.sig.P {
 			args = append(args, c.ILocalGet(i))
@@ -351,7 +471,7 @@ func (lg *liveGraph) body(m *LMod, f *lfn) (locals []byte, body []c.Ins) {
 		if ps.meta.Grow {
 			body = append(body, lg.growBy1(m)...)
 		}
-		body = append(body, lg.write(m, []c.Ins{c.ILocalGet(0)})...)
+		body = append(body, lg.write(m, []c.Ins{c.ILocalGet(0)}, wm)...)
 		if lg.kind == "mem" {
 			body = append(append(append(body, lastCell()...), c.ILocalGet(0)), c.IStore(c.I64, 8, 0))
 		}
@@ -361,7 +481,7 @@ func (lg *liveGraph) body(m *LMod, f *lfn) (locals []byte, body []c.Ins) {
 	locals = []byte{lg.vt, c.I32, c.I32}
 	sized := ps.meta.Dir == "cw" && (lg.kind == "mem" || lg.kind == "tab")
 	if sized {
-		body = append(body, lg.size()...)
+		body = append(body, lg.size(m)...)
 		body = append(body, c.ILocalSet(3))
 	}
 	plusI := func(base int) []c.Ins { // base + i
@@ -377,7 +497,7 @@ func (lg *liveGraph) body(m *LMod, f *lfn) (locals []byte, body []c.Ins) {
 			var lb []c.Ins
 			switch ps.meta.Touch {
 			case "set":
-				lb = append(lb, lg.write(m, plusI(1))...)
+				lb = append(lb, lg.write(m, plusI(1), wm)...)
 			case "get":
 				lb = append(append(lb, lg.read(m)...), c.IDrop)
 			}
@@ -388,7 +508,7 @@ func (lg *liveGraph) body(m *LMod, f *lfn) (locals []byte, body []c.Ins) {
 		} else {
 			switch ps.meta.Touch {
 			case "set":
-				body = append(body, lg.write(m, []c.Ins{c.ILocalGet(1)})...)
+				body = append(body, lg.write(m, []c.Ins{c.ILocalGet(1)}, wm)...)
 				body = append(body, c.ILocalGet(1), c.ILocalSet(2))
 			case "get":
 				body = append(append(body, lg.read(m)...), c.ILocalSet(2))
@@ -399,7 +519,7 @@ func (lg *liveGraph) body(m *LMod, f *lfn) (locals []byte, body []c.Ins) {
 		body = append(body, lg.read(m)...)
 		if sized {
 			body = append(body, c.ILocalGet(3))
-			body = append(body, lg.size()...)
+			body = append(body, lg.size(m)...)
 			body = append(body, lg.lastRead(m)...)
 		}
 		return locals, body
@@ -407,7 +527,7 @@ func (lg *liveGraph) body(m *LMod, f *lfn) (locals []byte, body []c.Ins) {
 	// cr: the frame writes, somebody else reads during the call
 	if n := ps.meta.Loop; n > 0 {
 		var lb []c.Ins
-		lb = append(lb, lg.write(m, plusI(1))...)
+		lb = append(lb, lg.write(m, plusI(1), wm)...)
 		lb = append(lb, acc(lg.call(m, f, nil))...)
 		lb = append(lb, c.ILocalGet(4), c.IConst(c.I32, 1), c.IBin(c.I32, 0), c.ILocalTee(4), c.IConst(c.I32, uint64(n)), c.IRel(c.I32, 3), c.IBrIf(0))
 		body = append(body, m.View.ILoop(nil, nil, lb), c.ILocalGet(2))
@@ -415,7 +535,7 @@ func (lg *liveGraph) body(m *LMod, f *lfn) (locals []byte, body []c.Ins) {
 		if ps.meta.Touch == "get" {
 			body = append(append(body, lg.read(m)...), c.IDrop)
 		}
-		body = append(body, lg.write(m, []c.Ins{c.ILocalGet(1)})...)
+		body = append(body, lg.write(m, []c.Ins{c.ILocalGet(1)}, wm)...)
 		body = append(body, lg.call(m, f, nil)...)
 	}
 	body = append(body, lg.read(m)...)
@@ -483,8 +603,48 @@ func (lg *liveGraph) buildModule(n int) *LMod {
 		m.Imports = append(m.Imports, im)
 		return &m.Imports[len(m.Imports)-1]
 	}
-	// ---- imports: table, memory, globals, functions
-	if n > lg.tabOwner {
+	// ---- imports: table(s), memory, globals, functions
+	tabGraph := lg.kind == "tab"
+	if tabGraph {
+		m.Tabs = []TabSlot{}
+	}
+	impDecoy := func() { // a private table of an earlier instance, imported here
+		type cand struct {
+			x *LMod
+			t TabSlot
+		}
+		var cs []cand
+		for _, x := range g.mods[1:n] {
+			for _, t := range x.Tabs {
+				if t.Own && t.Obj != g.mods[lg.tabOwner].TObj {
+					cs = append(cs, cand{x, t})
+				}
+			}
+		}
+		if len(cs) == 0 {
+			return
+		}
+		k := cs[r.Intn(len(cs))]
+		imp(k.x, k.t.Exp)
+		m.Tabs = append(m.Tabs, TabSlot{Obj: k.t.Obj, Exp: fmt.Sprintf("dtab%d", len(m.Tabs))})
+	}
+	switch {
+	case tabGraph && n > lg.tabOwner && lg.seesTab(n): // the shared table at index 0, 1 or 2 of this instance
+		for k := r.Intn(3); k > 0; k-- {
+			impDecoy()
+		}
+		x := g.mods[lg.tabOwner]
+		imp(x, "tab")
+		m.TObj, m.TIdx = x.TObj, len(m.Tabs)
+		m.Tabs = append(m.Tabs, TabSlot{Obj: x.TObj, Exp: "tab"})
+		if r.Intn(3) == 0 {
+			impDecoy()
+		}
+	case tabGraph: // the owner (its own tables follow below), an instance before it, or the blind one
+		if r.Bool() {
+			impDecoy()
+		}
+	case n > lg.tabOwner:
 		x := g.mods[lg.tabOwner]
 		imp(x, "tab")
 		m.TObj = x.TObj
@@ -504,6 +664,14 @@ func (lg *liveGraph) buildModule(n int) *LMod {
 			m.NImpG++
 		}
 		x := g.mods[lg.owner]
+		if r.Intn(3) == 0 && len(x.GObj) > 1 { // ... and one more, possibly the object's neighbour in the owner
+			k := r.Intn(len(x.GObj))
+			if k != lg.objIdx[lg.owner] {
+				imp(x, fmt.Sprintf("g%d", k))
+				m.GObj = append(m.GObj, x.GObj[k])
+				m.NImpG++
+			}
+		}
 		imp(x, fmt.Sprintf("g%d", lg.objIdx[lg.owner]))
 		lg.objIdx[n] = m.NImpG
 		m.GObj = append(m.GObj, x.GObj[lg.objIdx[lg.owner]])
@@ -584,7 +752,17 @@ func (lg *liveGraph) buildModule(n int) *LMod {
 	}
 	g.fillX(m)
 	// ---- own objects
+	ownDecoy := func() { // a private table, at whatever index comes next
+		o := &Obj{Kind: 1, Owner: n, Idx: len(m.Tabs), Min: uint32(1 + r.Intn(4)), Elem: c.FuncRef}
+		if r.Bool() {
+			o.HasMax, o.Max = true, o.Min+uint32(r.Pick([]uint64{0, 1, 5}))
+		}
+		m.Tabs = append(m.Tabs, TabSlot{Obj: o, Own: true, Exp: fmt.Sprintf("dtab%d", len(m.Tabs))})
+	}
 	if n == lg.tabOwner {
+		if tabGraph && r.Bool() { // a private table first: the shared one is not at index 0 in its owner
+			ownDecoy()
+		}
 		m.OwnTab, m.TMin = true, liveTMin
 		if r.Bool() {
 			m.THasMax, m.TMax = true, liveTMin+uint32(r.Pick([]uint64{0, 2, 8}))
@@ -593,6 +771,13 @@ func (lg *liveGraph) buildModule(n int) *LMod {
 			}
 		}
 		m.TObj = &Obj{Kind: 1, Owner: n, Min: m.TMin, HasMax: m.THasMax, Max: m.TMax, Elem: c.FuncRef}
+		if tabGraph {
+			m.TIdx, m.TObj.Idx = len(m.Tabs), len(m.Tabs)
+			m.Tabs = append(m.Tabs, TabSlot{Obj: m.TObj, Own: true, Exp: "tab"})
+		}
+	}
+	if tabGraph && (r.Bool() || (n == lg.blind && len(m.Tabs) == 0 && r.Intn(3) != 0)) {
+		ownDecoy()
 	}
 	if lg.kind == "mem" && n == lg.owner {
 		m.OwnMem, m.MMin = true, uint32(1+r.Intn(2))
@@ -603,9 +788,17 @@ func (lg *liveGraph) buildModule(n int) *LMod {
 			}
 		}
 		m.MObj = &Obj{Kind: 2, Owner: n, Min: m.MMin, HasMax: m.MHasMax, Max: m.MMax}
-	} else if m.MObj == nil && r.Bool() {
+	} else if m.MObj == nil && (r.Bool() || (n == lg.blind && r.Bool())) { // a private memory (the blind instance: mostly)
 		m.OwnMem, m.MMin = true, 1
 		m.MObj = &Obj{Kind: 2, Owner: n, Min: 1}
+		if n == lg.blind && r.Bool() {
+			m.MMin = 2
+			m.MObj.Min = 2
+			if r.Bool() {
+				m.MHasMax, m.MMax = true, 2+uint32(r.Intn(3))
+				m.MObj.HasMax, m.MObj.Max = true, m.MMax
+			}
+		}
 	}
 	addG := func(mut bool, t byte, v uint64) int {
 		if t == c.I32 {
@@ -614,6 +807,11 @@ func (lg *liveGraph) buildModule(n int) *LMod {
 		m.Globals = append(m.Globals, GDef{Mut: mut, T: t, Init: CE{V: v, T: t}})
 		m.GObj = append(m.GObj, &Obj{Kind: 3, Owner: n, Idx: len(m.Globals) - 1, Mut: mut, VT: t, Val: v})
 		return len(m.GObj) - 1
+	}
+	if isGlob && n == lg.blind { // private mutable globals of the object's type where the others have the shared one
+		for k := 1 + r.Intn(3); k > 0; k-- {
+			addG(true, lg.vt, uint64(200+r.Intn(50)))
+		}
 	}
 	for k := r.Intn(3); k > 0; k-- {
 		addG(r.Bool(), []byte{c.I32, c.I64}[r.Intn(2)], r.Pick([]uint64{0, 3, 77, 0xffffffff, r.U64()}))
@@ -634,7 +832,7 @@ func (lg *liveGraph) buildModule(n int) *LMod {
 		m.Funcs = append(m.Funcs, &Fn{Sig: f.sig, Locals: locals, Body: body, Role: f.role})
 		m.FObj = append(m.FObj, &Obj{Kind: 0, Owner: n, Idx: len(m.Funcs) - 1, Sig: f.sig, Role: f.role})
 		if f.slot >= 0 {
-			m.Elems = append(m.Elems, ElemSeg{Off: CE{V: uint64(f.slot), T: c.I32}, Funcs: []int{f.idx}, ROff: uint64(f.slot)})
+			m.Elems = append(m.Elems, ElemSeg{Off: CE{V: uint64(f.slot), T: c.I32}, Funcs: []int{f.idx}, ROff: uint64(f.slot), Tab: m.TIdx})
 		}
 	}
 	// ---- leaves in the table, a little data
@@ -645,16 +843,17 @@ func (lg *liveGraph) buildModule(n int) *LMod {
 			for i := liveChainN; i < liveTMin; i++ {
 				fs = append(fs, ab[i%2])
 			}
-			m.Elems = append(m.Elems, ElemSeg{Off: CE{V: liveChainN, T: c.I32}, Funcs: fs, ROff: liveChainN})
+			m.Elems = append(m.Elems, ElemSeg{Off: CE{V: liveChainN, T: c.I32}, Funcs: fs, ROff: liveChainN, Tab: m.TIdx})
 		} else if r.Bool() {
 			s := liveChainN + r.Intn(liveTMin-liveChainN)
 			if s == liveSlotS {
 				s++
 			}
-			m.Elems = append(m.Elems, ElemSeg{Off: CE{V: uint64(s), T: c.I32}, Funcs: []int{ab[r.Intn(2)]}, ROff: uint64(s)})
+			m.Elems = append(m.Elems, ElemSeg{Off: CE{V: uint64(s), T: c.I32}, Funcs: []int{ab[r.Intn(2)]}, ROff: uint64(s), Tab: m.TIdx})
 		}
 		if lg.kind == "tab" {
 			m.DeclFuncs = []int{ab[0], ab[1]}
+			m.PassiveFuncs = []int{ab[0], ab[1]} // element segment 0: the source of table.init
 		}
 	}
 	if m.MObj != nil {
@@ -713,6 +912,9 @@ func (lg *liveGraph) probeStep(ps *probeSpec) Step {
 		pre ^= 1
 	}
 	st := Step{K: "call", N: ps.fn.mod, F: ps.fn.idx, Args: []uint64{v, pre}, Role: "live", Probe: "live"}
+	if ps.ent != nil {
+		st.N, st.F = ps.ent.mod, ps.ent.idx
+	}
 	for _, t := range ps.fn.sig.R {
 		st.RT = append(st.RT, w(t))
 	}
@@ -725,6 +927,66 @@ func (lg *liveGraph) probeStep(ps *probeSpec) Step {
 	}
 	wm := end.mod // the instance through which the write happened (tab: whose leaves)
 	n := meta.Loop
+	// whose call engine runs the code that touches the object during the call: the instance the host (or a host function)
+	// entered last on the way; what does that instance have at the writer's index?
+	eng, cur := st.N, ps.fn
+	if ps.ent != nil {
+		cur = ps.ent
+	}
+	for ; cur.next != nil; cur = cur.next {
+		if cur.via == 'H' {
+			eng = cur.next.mod
+		}
+	}
+	switch lg.kind {
+	case "tab":
+		meta.Obj = [2]int{lg.tabOwner, lg.g.mods[lg.tabOwner].TIdx}
+		for _, k := range meta.Mods {
+			if k >= 1 && lg.g.mods[k].TObj != nil {
+				meta.TIdx = append(meta.TIdx, lg.g.mods[k].TIdx)
+			} else {
+				meta.TIdx = append(meta.TIdx, -1)
+			}
+		}
+	case "mem":
+		meta.Obj = [2]int{lg.owner, -1}
+	default:
+		meta.Obj = [2]int{lg.owner, lg.objIdx[lg.owner]}
+	}
+	switch {
+	case end.role == "hostobj":
+		meta.Ctx = "host-entered"
+	case eng == end.mod:
+		meta.Ctx = "same-instance"
+	default:
+		a, b := lg.g.mods[eng], lg.g.mods[end.mod]
+		var there, here interface{}
+		switch lg.kind {
+		case "tab":
+			here = b.TObj
+			if b.TIdx < len(a.Tabs) {
+				there = a.Tabs[b.TIdx].Obj
+			}
+		case "mem":
+			here = b.MObj
+			if a.MObj != nil {
+				there = a.MObj
+			}
+		default:
+			here = b.GObj[lg.objIdx[b.N]]
+			if lg.objIdx[b.N] < len(a.GObj) {
+				there = a.GObj[lg.objIdx[b.N]]
+			}
+		}
+		switch {
+		case there == nil:
+			meta.Ctx = "nothing-at-index"
+		case there == here:
+			meta.Ctx = "same-index-same-object"
+		default:
+			meta.Ctx = "other-object-at-index"
+		}
+	}
 	exp := func(i int, x uint64) { meta.ExpIdx = append(meta.ExpIdx, i); meta.ExpVal = append(meta.ExpVal, x) }
 	fold := func(val func(i int) uint64) uint64 {
 		var a uint64
@@ -812,10 +1074,7 @@ func (g *graph) buildLive(id int, force *liveForce) *Case {
 	if force != nil && force.demo {
 		lg.owner = 2
 	}
-	lg.sees = make([]bool, lg.nmods+1)
-	lg.objIdx = make([]int, lg.nmods+1)
-	lg.leafAB = make([][2]int, lg.nmods+1)
-	lg.perMod = make([][]*lfn, lg.nmods+1)
+	lg.sees = make([]bool, lg.nmods+2)
 	lg.sees[lg.owner] = true
 	cnt := 0
 	for m := lg.owner + 1; m <= lg.nmods; m++ {
@@ -833,6 +1092,15 @@ func (g *graph) buildLive(id int, force *liveForce) *Case {
 	if force != nil && force.demo {
 		lg.sees[3], cnt = true, 1
 	}
+	// a last instance that never sees the object: it has a private memory / table / global where the others have the shared one
+	if (force == nil && r.Intn(3) != 0) || (force != nil && force.combo) {
+		lg.nmods++
+		lg.blind = lg.nmods
+	}
+	lg.sees = lg.sees[:lg.nmods+1]
+	lg.objIdx = make([]int, lg.nmods+1)
+	lg.leafAB = make([][2]int, lg.nmods+1)
+	lg.perMod = make([][]*lfn, lg.nmods+1)
 	lg.grow = (lg.kind == "mem" || lg.kind == "tab") && r.Bool()
 	if force != nil && force.grow != 0 {
 		lg.grow = (lg.kind == "mem" || lg.kind == "tab") && force.grow == 1
@@ -841,7 +1109,7 @@ func (g *graph) buildLive(id int, force *liveForce) *Case {
 	switch {
 	case force != nil && force.demo:
 		ps := &probeSpec{chain: c.Sig{P: []byte{lg.vt}}}
-		ps.meta = LiveProbe{Kind: lg.kind, Dir: "cw", Reader: "owner", Writer: "inst", Hops: 2, Touch: "set", Model: true, Max: -1, Path: "DI", First: "call", Mods: []int{2, 1, 3}}
+		ps.meta = LiveProbe{Kind: lg.kind, Dir: "cw", Reader: "owner", Writer: "inst", Hops: 2, Touch: "set", Model: true, Max: -1, Path: "DI", First: "call", Mods: []int{2, 1, 3}, Entry: -1}
 		ps.fn = lg.newFn(2, "probe", c.Sig{P: []byte{lg.vt, lg.vt}, R: []byte{lg.vt, lg.vt}})
 		relay := lg.newFn(1, "relay", ps.chain)
 		set := lg.newFn(3, "lset", ps.chain)
@@ -854,12 +1122,14 @@ func (g *graph) buildLive(id int, force *liveForce) *Case {
 		for _, rd := range []string{"owner", "importer"} {
 			for _, wr := range []string{"inst", "self", "host"} {
 				for _, first := range []string{"call", "call_indirect"} {
-					lg.planProbe(liveWant{reader: rd, writer: wr, first: first, dir: "cw", touch: []string{"set", "get", "none"}[r.Intn(3)], hops: 1 + r.Intn(3), loop: r.Intn(2) * (2 + r.Intn(3))})
+					lg.planProbe(liveWant{reader: rd, writer: wr, first: first, dir: "cw", touch: []string{"set", "get", "none"}[r.Intn(3)], hops: 1 + r.Intn(3), loop: r.Intn(2) * (2 + r.Intn(3)),
+						entry: []string{"blind", "none", "other"}[len(lg.probes)%3]})
 				}
 			}
 		}
 		for _, rd := range []string{"owner", "importer"} {
-			lg.planProbe(liveWant{reader: rd, writer: []string{"inst", "self", "host"}[r.Intn(3)], first: "call", dir: "cr", touch: "set", hops: 1 + r.Intn(3), loop: r.Intn(2) * 3})
+			lg.planProbe(liveWant{reader: rd, writer: []string{"inst", "self", "host"}[r.Intn(3)], first: "call", dir: "cr", touch: "set", hops: 1 + r.Intn(3), loop: r.Intn(2) * 3,
+				entry: []string{"blind", "none", "other"}[r.Intn(3)]})
 		}
 	default:
 		for k := 2 + r.Intn(4); k > 0; k-- {
@@ -871,6 +1141,7 @@ func (g *graph) buildLive(id int, force *liveForce) *Case {
 			if r.Intn(3) == 0 {
 				w.loop = 2 + r.Intn(4)
 			}
+			w.entry = []string{"none", "none", "blind", "other"}[r.Intn(4)]
 			lg.planProbe(w)
 		}
 	}
@@ -878,7 +1149,7 @@ func (g *graph) buildLive(id int, force *liveForce) *Case {
 	hm := g.newMod()
 	hm.IsHost, hm.Exports = true, map[string]*Obj{}
 	lg.hostMod = hm
-	cs := &Case{ID: id, Limit: 65536, Engines: map[string][]Obs{}, Fam: "live", NoModel: !lg.model}
+	cs := &Case{ID: id, Limit: 65536, Engines: map[string][]Obs{}, Fam: "live", NoModel: !lg.model, Blind: lg.blind}
 	if force != nil {
 		cs.Witness = "lw-" + force.kind
 		if lg.grow {
@@ -953,7 +1224,7 @@ func (g *graph) buildLive(id int, force *liveForce) *Case {
 		bin := m.Encode()
 		cs.bins = append(cs.bins, bin)
 		mo := ModOut{N: m.N, Wasm: hex.EncodeToString(bin), Fault: m.Fault, Imports: m.Imports, NElems: len(m.Elems),
-			OwnMem: m.OwnMem, MemOf: -1, NGlob: len(m.GObj), NImpF: m.NImpF}
+			OwnMem: m.OwnMem, MemOf: -1, NGlob: len(m.GObj), NImpF: m.NImpF, Tabs: m.tabIdents()}
 		if lg.model {
 			mo.Coq = m.Coq()
 		}
